@@ -39,12 +39,13 @@ PROPS = {
          "of both implementations on every reached shape incl. stale separators and None as the smallest key (range_rt).",
          "A1, A2, A7; _Tree.minKey of a child subtree is an assumed contract in the order view; recorded finding: empty-leaf "
          "minKey()/maxKey() raising IndexError in Python; fixed this session: None as smallest key with an exclusive omitted min (5df0066)", "7/C02, 12.11 and 13"),
- "C03": (True, "proof", T_P + BOUNDED,
+ "C03": (True, "proof", T_P + "; " + T_C + BOUNDED,
          "Proved (Python, all trees): every mutator of the interior-node layer (_Tree._set, _grow, _split, _split_root, _del, "
          "_deleteNextBucket; structural view, node-local with children abstracted by first-leaf / successor-link summaries) "
          "preserves exactly the clauses _check() tests, incl. the first-leaf hand-off of deletions, the linking of split halves "
-         "and the root split; leaf split / unlink / sortedness; _check itself returns normally iff those clauses hold. "
-         "Bounded: key containment within separator ranges, size limits, the C implementation (hist_rt wf mode).",
+         "and the root split; leaf split / unlink / sortedness; _check itself returns normally iff those clauses hold. C: bucket_split "
+         "(F-SPLIT, loop-free: exact halves, non-empty, chain re-linked, registered; unchanged on a failed allocation). "
+         "Bounded: key containment within separator ranges, size limits, the rest of the C implementation (hist_rt wf mode).",
          "A1-A3, A7, A8b (an operation on a child changes only that child's subtree: the modifies lists; the same frame is what the "
          "contract claims for the node itself), node sizes >= 1; L-height argued in DESIGN.md 5.4; _Tree.minKey assumed total on a "
          "non-empty subtree", "7/C03 and 12.7"),
@@ -133,7 +134,8 @@ PROPS = {
          "A4 new/borrowed/steals table, A5-A7; functions outside the contract are listed in evidence; M-BND not discharged", "7/C16"),
  "C17": (True, "proof", T_C + "; bounded fault enumeration through the guarded allocation-failure hook (alloc_rt), every faulted call in its own process",
          "Proved for all inputs and every failing allocation: no container field is left pointing at a released block and "
-         "a failed allocation is never swallowed (M-ALLOC typestate on all allocating functions). Bounded, exhaustive over the "
+         "a failed allocation is never swallowed (M-ALLOC typestate on all allocating functions); bucket_split leaves the leaf exactly "
+         "as it was when one of its two allocations fails (F-SPLIT, loop-free functional contract). Bounded, exhaustive over the "
          "stated scenarios: MemoryError, soundness, contents previous-or-completed, follow-up workload (alloc_rt).",
          "A4-A7; allocations made by CPython itself are outside the hook and the typestate; recorded findings for &= and setstate", "7/C17"),
 }
